@@ -101,9 +101,10 @@ Definition feat_cands (inl : bool) (s : schema) (h : heap) (f : fsobj) (fd : fde
 Definition scan_feature (inl : bool) (s : schema) (f : fsobj) (w : wstate) (fd : fdecl) : res wstate :=
   do l <- feat_cands inl s (w_heap w) f fd ;; enqueue w l.
 
-(* `t.supertype.name == "uima.cas.ArrayBase"`: uima.cas.TOP has no supertype, the attribute access fails *)
+(* `t.supertype is not None and t.supertype.name == "uima.cas.ArrayBase"` (after fix 2a93760; before it the test
+   dereferenced the missing supertype of uima.cas.TOP and raised AttributeError).  The result type stays `res bool`. *)
 Definition is_array_type (t : tinfo) : res bool :=
-  match ti_anc t with _ :: sup :: _ => Ok (String.eqb sup T_ARRAY_BASE) | _ => Err EAttribute end.
+  match ti_anc t with _ :: sup :: _ => Ok (String.eqb sup T_ARRAY_BASE) | _ => Ok false end.
 
 Definition scan (inl : bool) (s : schema) (f : fsobj) (w : wstate) : res wstate :=
   match sch_find s (o_type f) with
@@ -190,7 +191,7 @@ Definition succs (inl : bool) (s : schema) (h : heap) (o : oid) : list oid :=
   end.
 
 (* well-formedness premises of the theorems, as booleans: every value the scan of a live object considers is None or a
-   reference to a live object (in particular: the type is known and is not uima.cas.TOP itself, `elements` of arrays is
+   reference to a live object (in particular: the type is known, `elements` of arrays is
    a list, reference features hold references, list nodes and inlined collections are live) *)
 Definition live (h : heap) (o : oid) : bool := match hget h o with Some _ => true | None => false end.
 Definition okval (h : heap) (v : val) : bool := match v with VNone => true | VRef o => live h o | _ => false end.
